@@ -34,6 +34,8 @@ func verifSinkAddW(s *ipsetsink.IPSetSink, ip string) {
 	verifCurrent = append(verifCurrent, int(ip[0]-'a'))
 }
 func verifSinkDumpW(s *ipsetsink.IPSetSink) ([]byte, error) {
+	verifDumpsThisCall++
+	verifapi.Assert(verifDumpsThisCall <= 1, "one call writes at most one chunk: a failing journal is not retried in a loop while the caller (who holds the metrics lock) waits")
 	verifDumped = append([]int(nil), verifCurrent...)
 	return []byte("sketch"), nil
 }
@@ -61,6 +63,8 @@ func (verifJournal) Write(p []byte) (int, error) {
 }
 func (verifJournal) Sync() error { verifSyncs++; return nil }
 
+var verifDumpsThisCall int
+
 var errJournal = errors.New("journal write failed (stub)")
 
 func VerifC19_JournalWriter() {
@@ -73,13 +77,16 @@ func VerifC19_JournalWriter() {
 	for k := 0; k < n; k++ {
 		verifClockW += int64([4]int{0, 50, 100, 101}[verifapi.Concrete(verifapi.Choice("time passes", 4))])
 		when[k] = verifClockW
+		verifDumpsThisCall = 0
 		c.AddIPToSet(string([]byte{byte('a' + k)}))
 	}
 	verifClockW += 500
+	verifDumpsThisCall = 0
 	c.WriteIPSetToDisk() // the final flush
 	if verifJournalFails != 0 && verifWritten >= verifJournalFails {
 		verifapi.Cover("a journal write failed")
 		verifClockW += 500
+		verifDumpsThisCall = 0
 		c.WriteIPSetToDisk() // the journal works again: what the failed write held back is written now
 	}
 	verifapi.Cover("journal written")
